@@ -35,7 +35,7 @@
 (*    "right" and 3 as "left" in one place and list "up, left, right,      *)
 (*    down" in another); 4 is the no-op.                                   *)
 (***************************************************************************)
-EXTENDS EnvKit
+EXTENDS EnvKit, TLCExt
 
 CONSTANT Cfg   \* [rows, cols, walls (seq of seq, 1 = wall), player_start, ghost_spawns, power_ups (0-based <<row, col>>
                \*  as sequences), time_limit, time_limit_given, scatter_time, maze]
@@ -50,7 +50,7 @@ TimeLimit == Cfg.time_limit              \* as requested by the harness (1000 wh
 
 Cell == (0..(R - 1)) \X (0..(C - 1))
 IsWall(rc) == Cfg.walls[rc[1] + 1][rc[2] + 1] = 1
-FreeCells == { rc \in Cell : ~IsWall(rc) }
+FreeCells == TLCEval({ rc \in Cell : ~IsWall(rc) })      \* constant: evaluated once
 CellOf(pair) == <<pair[1], pair[2]>>                                   \* JSON [r, c] -> cell
 SpawnOf(k) == CellOf(Cfg.ghost_spawns[k])
 NGhosts == Len(Cfg.ghost_spawns)
@@ -123,7 +123,7 @@ ANoOverlap(m) == \A k \in 1..NGhosts : m.ghosts[k] = m.player => (m.ghosts[k] = 
 RECURSIVE Pow2(_)
 Pow2(n) == IF n = 0 THEN 1 ELSE 2 * Pow2(n - 1)
 RowBits(r) == SumTo([c \in 1..C |-> IF Cfg.walls[r][c] = 1 THEN 0 ELSE Pow2(c - 1)], C)
-GridOfMaze == [shape |-> <<R, C>>, bits |-> [r \in 1..R |-> RowBits(r)], other |-> <<>>]   \* 1 = corridor, 0 = wall
+GridOfMaze == TLCEval([shape |-> <<R, C>>, bits |-> [r \in 1..R |-> RowBits(r)], other |-> <<>>])   \* 1 = corridor, 0 = wall
 
 PosCell(pos) == <<pos.x, pos.y>>                                    \* Position(x = row, y = col)
 PairCell(cr) == <<cr[2], cr[1]>>                                    \* [col, row] -> <<row, col>>
